@@ -7,6 +7,7 @@ import (
 	"errors"
 	"fmt"
 	"io"
+	"os/exec"
 	"strings"
 	"testing"
 	"time"
@@ -245,7 +246,18 @@ func (r *Repository) KnowsCommit(testCommitID, ancestorCommitID Hash) (bool, err
 	}
 
 	_, err := r.executor("merge-base", "--is-ancestor", ancestorCommitID.String(), testCommitID.String()).executeString()
-	return err == nil, nil
+	if err == nil {
+		return true, nil
+	}
+
+	// Git exits with status 1 when the commit is not an ancestor, any other
+	// failure means the question could not be answered
+	var exitErr *exec.ExitError
+	if errors.As(err, &exitErr) && exitErr.ExitCode() == 1 {
+		return false, nil
+	}
+
+	return false, err
 }
 
 // GetCommonAncestor finds the common ancestor commit for the two supplied
